@@ -48,6 +48,35 @@ type libCase struct {
 	Hex   bool   `json:"hex,omitempty"`
 	Input univ.V `json:"input"`
 	Var   univ.V `json:"var"`
+	// Nil: every empty array / object of the input and of $v is handed to
+	// gojq as a typed nil ([]any(nil), map[string]any(nil)): legal Go values
+	// of the supported types
+	Nil bool `json:"nil,omitempty"`
+}
+
+// nilify returns a copy of v whose empty containers are typed nils.
+func nilify(v any) any {
+	switch v := v.(type) {
+	case []any:
+		if len(v) == 0 {
+			return []any(nil)
+		}
+		w := make([]any, len(v))
+		for i, x := range v {
+			w[i] = nilify(x)
+		}
+		return w
+	case map[string]any:
+		if len(v) == 0 {
+			return map[string]any(nil)
+		}
+		w := make(map[string]any, len(v))
+		for k, x := range v {
+			w[k] = nilify(x)
+		}
+		return w
+	}
+	return v
 }
 
 func (c libCase) src() string {
@@ -158,13 +187,21 @@ func check(c libCase) outcome {
 	if d := want.Discard(); strings.HasPrefix(d, "resource") {
 		return outcome{discard: d}
 	}
-	res := run.Exec(code, univ.Copy(c.Input.X), steps, maxOuts, univ.Copy(c.Var.X))
+	inputOf := func() (any, any) {
+		if c.Nil {
+			return nilify(univ.Copy(c.Input.X)), nilify(univ.Copy(c.Var.X))
+		}
+		return univ.Copy(c.Input.X), univ.Copy(c.Var.X)
+	}
+	in1, v1 := inputOf()
+	res := run.Exec(code, in1, steps, maxOuts, v1)
 	if res.Panic != "" {
 		return outcome{msg: "Run panicked: " + res.Panic}
 	}
 	// the same Code once more: whatever the first run left behind in the Code
 	// (caches, lazily built tables, memoised failures) must not crash the next
-	if res2 := run.Exec(code, univ.Copy(c.Input.X), steps, maxOuts, univ.Copy(c.Var.X)); res2.Panic != "" {
+	in2, v2 := inputOf()
+	if res2 := run.Exec(code, in2, steps, maxOuts, v2); res2.Panic != "" {
 		return outcome{msg: "the second Run of the same Code panicked: " + res2.Panic}
 	}
 	for _, v := range res.Vals {
@@ -498,6 +535,7 @@ func replayCase(sub string, raw json.RawMessage) string {
 }
 
 func judge(t *rapid.T, sub string, c libCase) {
+	c.Nil = rapid.IntRange(0, 5).Draw(t, "nilcontainers") == 0
 	rec.Eval()
 	rec.Journal(sub, c)
 	o := check(c)
@@ -592,6 +630,7 @@ func TestC08(t *testing.T) {
 	// and in two runs of one Code (memoised failures, per-Code caches)
 	twice := []string{"test(\"[\")", "test(\"(\")", "test(\"a\"; \"y\")", "[match(\"*\"; \"g\")]", "capture(\"(?<x\")", "sub(\"(\"; \"x\")", "gsub(\"[\"; \"x\")", "[splits(\"+\")]", "[scan(\"(?P<\")]", "split(\"(\"; null)", "test(\"\\\\\")",
 		"test(.)", "test(\"a\"; .)", "ltrimstr(1)", "tonumber", "fromjson", "@base64d", "implode", "strptime(\"%Y\")", "strftime(\"%Q\")", "mktime", "todate", "getpath([\"a\", 0, \"b\"])", "setpath([0, \"a\"]; 1)", "delpaths([[0, \"a\"]])",
+		"add", "add(.[]?)", "flatten", "sort", "unique", "group_by(.)", "min", "max", "reverse", "to_entries", "from_entries", "with_entries(.)", "map_values(.)", "tostream", "[paths]", "transpose", "join(\",\")", "any", "all", "length", "keys", "has(0)", "del(.[0])", ".[0] = 1", ". + .", ". - .", ". * .", "tojson", "[.[] + .[]]", "map(. + {b: 2})", "map(. + [2])", "reduce .[] as $x (null; . + $x)", "getpath([0, \"a\"])", "setpath([0, \"a\"]; 1)", "walk(.)", "[..]", "inside(.)", "contains(.)", "index(.[0])", "@json", "@csv", "@sh", "implode", "combinations", "first", "last", ".[1:]", "limit(1; .[])", "isempty(.[])", "splits(\"a\")", "env | length", "input_filename",
 		"error", "error(null)", "input", "$__loc__", "input_filename", "ascii", "@sh", "tojson | fromjson", "splits(\"a\"; \"gx\")", "test(\"a\"; \"gx\")", "test(\"(?i)\" + .)", "[limit(-1; 1)]", "range(1e1000)?", "has(.)", "keys", ".[\"a\"]", ".[0]"}
 	tcomplete := true
 	for ti, q := range twice {
@@ -600,8 +639,9 @@ func TestC08(t *testing.T) {
 		}
 		for _, form := range []string{"[.[]? | try (%s) catch \"e\"]", "[(%s)?, (%s)?]", "[try (%s) catch ., try (%s) catch .]", ".[]? | (%s)", "[.[]? | (%s)?] | length", "first(.[]? | try (%s) catch 1), (.[]? | try (%s) catch 2)"} {
 			src := strings.ReplaceAll(form, "%s", q)
-			for _, in := range []any{[]any{"a", "b"}, []any{"[", "[", "("}, []any{1, 1}, []any{nil, "x", nil}, "ab"} {
+			for ii, in := range []any{[]any{"a", "b"}, []any{"[", "[", "("}, []any{1, 1}, []any{nil, "x", nil}, "ab", []any{map[string]any{}, map[string]any{"a": 1}}, []any{[]any{}, []any{1}}, map[string]any{"a": map[string]any{}, "b": []any{}}} {
 				c := mkLib(src, in, nil)
+				c.Nil = ii >= 5
 				rec.Eval()
 				rec.Journal("twice", c)
 				o := check(c)
